@@ -205,6 +205,9 @@ func walkPathK(t *testing.T, g *Graph, seed int64, path []Edge, known []knownFin
 			if f, ok := sys.(interface{ Finish(func()) []Mismatch }); ok && i == len(path)-1 && len(ms) == 0 {
 				ms = f.Finish(synctest.Wait) // end-of-path obligations (teardown, drain)
 			}
+			if len(ms) > 0 && softUnowned(ms, e.A) {
+				continue // an observation another property owns, which leaves the system where the specification is: go on
+			}
 			if len(ms) > 0 {
 				if id := matchKnown(known, ms, e.A); id != "" {
 					knownHits[id]++ // a listed finding whose effect the harness has undone: go on
@@ -235,6 +238,25 @@ func walkPathK(t *testing.T, g *Graph, seed int64, path []Edge, known []knownFin
 	return step, mm, exp, got, steps
 }
 
+// walkProp is the property the running walk decides (VERIF_PROP).
+var walkProp string
+
+// softUnowned: every mismatch is of a kind that does not move the system away from the specification's state (a
+// finished transaction left in the client's table) and belongs to another property than the one being decided.  The
+// path goes on, so that what such a leftover leads to (a late response that blocks the inbound path) is still reached.
+func softUnowned(ms []Mismatch, a map[string]any) bool {
+	if walkProp == "" || walkProp == "ALL" {
+		return false
+	}
+	for _, m := range ms {
+		if m.Kind != "txn.table" || OwnedBy(m, a, walkProp) {
+			return false
+		}
+	}
+
+	return true
+}
+
 // TestWalk is Engine A: the lock-step walk of TLC's state graph on the real server.
 //
 //	VERIF_EDGES  TLC output with META and EDGE lines      VERIF_OUT   result file
@@ -248,6 +270,7 @@ func TestWalk(t *testing.T) {
 	start := time.Now()
 	seed := envInt("VERIF_SEED", 1)
 	prop := os.Getenv("VERIF_PROP")
+	walkProp = prop
 	frac := 1.0
 	if v := os.Getenv("VERIF_FRAC"); v != "" {
 		frac, _ = strconv.ParseFloat(v, 64)
